@@ -1524,36 +1524,55 @@ def rule_N9(ctx):
             ctx.ob("N9", fn, f"{cls} is constructed once in {q}", False, f"{len(cs)} constructor calls", inst=f"{cls}:site")
             continue
         c = cs[0]
-        kw = {k.arg: norm(k.value) for k in c.keywords if k.arg}
-        pv = kw.get(pk, norm(c.args[ppos]) if ppos is not None and len(c.args) > ppos else None)
-        parv = kw.get("_parent", kw.get("parent"))
-        if parv is None and cls == "Partition" and len(c.args) > 3:
-            parv = norm(c.args[3])
+        # decided on the value-flow terms of the constructor call on every path that reaches it
+        from .util import evaluator as _evn, call_parts as _cp
+        from ..core import terms as _T
+        params = _T.SIGS.get(cls) or ()
+        okp = okr = True
+        detp = detr = ""
+        n_site = 0
+        for p_ in run_paths(ctx, fn, rule="N9", limit=4000):
+            hits = [(c_, e_) for c_, e_, st_ in calls_on(p_) if c_ is c]
+            if not hits:
+                continue
+            n_site += 1
+            env_ = dict(hits[0][1])
+            # a local obtained from pull_child_info(context, ...) plays the role of the `child_info` parameter
+            bases = [v_.key() for v_ in env_.values() if hasattr(v_, "key") and v_.key().startswith("pull_child_info(context") and v_.key().endswith(")")]
+            for k_, v_ in list(env_.items()):
+                if hasattr(v_, "key") and any(b_ in v_.key() for b_ in bases):
+                    t_ = v_.key()
+                    for b_ in sorted(bases, key=len, reverse=True):
+                        t_ = t_.replace(b_, "child_info")
+                    env_[k_] = _T.parse_key(t_)
+            fname, pos, kwt = _cp(_evn(ctx, fn, env_).ev(c).key())
 
-        def resolve(v, depth=0):
-            if v is None or depth > 3:
-                return v
-            defs = [a for a in own_nodes(fn) if isinstance(a, ast.Assign) and len(a.targets) == 1 and norm(a.targets[0]) == v]
-            if len(defs) == 1:
-                return norm(defs[0].value)
-            return v
-        pdef = resolve(pv)
-        # one more level for `element_path + [name]` / `parent_path + [name]`
-        ok = False
-        if pdef is not None:
-            if pdef in ("child_info.next_path",):
-                ok = True
-            elif pdef.endswith("+ [name]") or pdef.endswith("+ [file_name]"):
-                base = pdef.split(" + ")[0]
-                bdef = resolve(base) if base not in ("child_info.parent_path",) else base
-                ok = bdef == "child_info.parent_path"
-                nm = pdef.split("[")[-1].rstrip("]")
-                ndef = resolve(nm)
-                ok = ok and ndef in ("container.directory.name", "volume_entry.name", "child_info.name or obj.header.program_name", "sample_entry.name", nm)
-        ctx.ob("N9", c, f"{cls}: path = parent's path + own name", ok, "" if ok else f"path argument `{pv}` = `{pdef}`", inst=f"{cls}:path")
-        pardef = resolve(parv)
-        ok = pardef == "child_info.parent"
-        ctx.ob("N9", c, f"{cls}: parent = the directory that realises it", ok, "" if ok else f"parent argument `{parv}` = `{pardef}`", inst=f"{cls}:parent")
+            def arg(names):
+                for nm_ in names:
+                    if nm_ in kwt:
+                        return kwt[nm_]
+                    if nm_ in params and params.index(nm_) < len(pos):
+                        return pos[params.index(nm_)]
+                return None
+
+            pv = arg((pk,))
+            rv = arg(("_parent", "parent"))
+            good = False
+            if pv is not None:
+                pt_ = _T.parse_key(pv)
+                rest = pt_ - _T.Term.atom("child_info.parent_path")
+                good = pv == "child_info.next_path" or (len(rest.p) == 1 and list(rest.p.values())[0] == 1 and len(list(rest.p)[0]) == 1
+                                                         and re.fullmatch(r"\[[^\[\],]+.*\]", list(rest.p)[0][0]) is not None
+                                                         and len(_T._split_top(list(rest.p)[0][0][1:-1], ",")) == 1)
+            if not good:
+                okp, detp = False, f"path argument is `{pv}`"
+            if rv != "child_info.parent":
+                okr, detr = False, f"parent argument is `{rv}`"
+        if n_site == 0:
+            okp = okr = False
+            detp = detr = "no path reaches the constructor"
+        ctx.ob("N9", c, f"{cls}: path = parent's path + own name", okp, detp, inst=f"{cls}:path")
+        ctx.ob("N9", c, f"{cls}: parent = the directory that realises it", okr, detr, inst=f"{cls}:parent")
     pc = ctx.fn("smpl_extract/util/constructs.py", "pull_child_info", "N9")
     t = full(pc)
     ok = "parent_path = parent.path" in t and "resultant_path = parent_path + [name]" in t and "next_path=resultant_path" in t and "parent_path=parent_path" in t \
